@@ -8,6 +8,72 @@ From RecordUpdate Require Import RecordSet.
 Import RecordSetNotations.
 Open Scope N_scope.
 
+(* the four component types are implicit in the engine functions, locally to this file *)
+#[local] Arguments init {enc dec} _ {ores ires} _ _.
+#[local] Arguments release {enc dec ores ires} _ _ _ _.
+#[local] Arguments disconnect_completion {enc dec ores ires} _ _.
+#[local] Arguments fail_op {enc dec ores ires} _ _ _ _.
+#[local] Arguments ping_extension {enc dec ores ires} _ _.
+#[local] Arguments succeed_op {enc dec ores ires} _ _ _ _.
+#[local] Arguments fail_all {enc dec ores ires} _ _ _ _.
+#[local] Arguments succeed_all {enc dec ores ires} _ _ _.
+#[local] Arguments andthen {enc dec ores ires} _ _.
+#[local] Arguments try_ {enc dec ores ires} _ _.
+#[local] Arguments pure {enc dec ores ires} _.
+#[local] Arguments create_operation {enc dec ores ires} _ _.
+#[local] Arguments passes_now {enc dec ores ires} _ _ _.
+#[local] Arguments user_event {enc dec ores ires} _ _ _ _.
+#[local] Arguments create_connect {enc dec ores ires} _ _.
+#[local] Arguments net_opened {enc dec} _ {ores ires} _ _ _.
+#[local] Arguments op_exists {enc dec ores ires} _ _.
+#[local] Arguments op_passes {enc dec ores ires} _ _ _.
+#[local] Arguments partition_policy {enc dec ores ires} _ _ _.
+#[local] Arguments closed_current {enc dec ores ires} _ _.
+#[local] Arguments slow_start_init {enc dec ores ires} _ _.
+#[local] Arguments update_retries {enc dec ores ires} _ _.
+#[local] Arguments fail_exceeding {enc dec ores ires} _ _.
+#[local] Arguments has_pubrel {enc dec ores ires} _ _.
+#[local] Arguments net_closed_raw {enc dec ores ires} _ _.
+#[local] Arguments net_closed {enc dec ores ires} _ _.
+#[local] Arguments net_write_completion {enc dec ores ires} _ _.
+#[local] Arguments acquire_free_pid {enc dec ores ires} _ _.
+#[local] Arguments acquire_pid_for {enc dec ores ires} _ _.
+#[local] Arguments unbind {enc dec ores ires} _ _.
+#[local] Arguments passes_receive_max {enc dec ores ires} _ _.
+#[local] Arguments throttled {enc dec ores ires} _ _.
+#[local] Arguments has_pending_ack {enc dec ores ires} _.
+#[local] Arguments dequeue {enc dec ores ires} _ _ _.
+#[local] Arguments fully_written {enc dec ores ires} _ _.
+#[local] Arguments service_keep_alive {enc dec ores ires} _ _ _.
+#[local] Arguments process_ack_timeouts {enc dec ores ires} _ _ _.
+#[local] Arguments halt_on_error {enc dec ores ires} _ _.
+#[local] Arguments next_service_time {enc dec ores ires} _ _ _.
+#[local] Arguments build_settings {enc dec ores ires} _ _ _.
+#[local] Arguments apply_session {enc dec ores ires} _ _ _.
+#[local] Arguments hres_of {enc dec ores ires} _ _.
+#[local] Arguments pre_connack {enc dec ores ires} _.
+#[local] Arguments sum_ss {enc dec ores ires} _.
+#[local] Arguments handle_pingresp {enc dec ores ires} _.
+#[local] Arguments handle_suback {enc dec ores ires} _ _ _.
+#[local] Arguments handle_unsuback {enc dec ores ires} _ _ _.
+#[local] Arguments publish_qos_of {enc dec ores ires} _ _.
+#[local] Arguments handle_puback {enc dec ores ires} _ _ _.
+#[local] Arguments handle_pubrec {enc dec ores ires} _ _ _.
+#[local] Arguments handle_pubrel {enc dec ores ires} _ _.
+#[local] Arguments handle_pubcomp {enc dec ores ires} _ _ _.
+#[local] Arguments handle_publish {enc dec ores ires} _ _.
+#[local] Arguments handle_disconnect {enc dec ores ires} _ _ _.
+#[local] Arguments is_connect_op {enc dec ores ires} _ _.
+#[local] Arguments connect_in_queue {enc dec ores ires} _.
+#[local] Arguments reset {enc dec ores ires} _ _.
+#[local] Arguments out_of_res {enc dec ores ires} _ _.
+#[local] Arguments nst_queue {enc dec ores ires} _ _ _ _.
+#[local] Arguments earliest_tmo {enc dec ores ires} _.
+#[local] Arguments SeatStop {enc dec ores ires} _.
+#[local] Arguments SeatContinue {enc dec ores ires} _ _.
+#[local] Arguments SeatEncode {enc dec ores ires} _.
+
+
 Section Session2.
   Context {enc dec ores ires : Type}.
   Notation state := (state enc dec ores ires).
@@ -72,6 +138,7 @@ Section Session2.
     md_hq : s_hq s2 = []; md_ppub : s_ppub s2 = []; md_pnon : s_pnon s2 = []; md_tmo : s_tmo s2 = []; md_pwco : s_pwco s2 = [];
     md_st : s_st s2 = s_st s; md_settings : s_settings s2 = s_settings s; md_cur : s_cur s2 = s_cur s;
     md_enc : s_enc s2 = s_enc s;
+    md_comp : comp_of s2 = comp_of s;
     md_gone : forall i, getop s i = None -> getop s2 i = None }.
 
   Lemma sess_mid_present (s : state) :
@@ -82,7 +149,7 @@ Section Session2.
     destruct (unbind_all_spec [] (s_uq s) s HW E2 E3) as (U1 & U2 & U3 & U4 & U5 & U6).
     set (s2 := fold_left unbind (s_uq s) s) in *. clearbody s2.
     unfold but_oa in U2. tuple_eqs U2.
-    constructor; try congruence; auto.
+    constructor; try congruence; auto; try (unfold comp_of; congruence).
     unfold W9, ss_ok in *. rewrite U4. replace (s_st s2) with (s_st s) by congruence.
     replace (s_ss_count s2) with (s_ss_count s) by congruence. exact H9.
   Qed.
@@ -181,6 +248,8 @@ Section Session2.
     - replace (s_settings s2') with (s_settings (r_s r)) by congruence. rewrite R8. reflexivity.
     - replace (s_cur s2') with (s_cur (r_s r)) by congruence. rewrite R4. reflexivity.
     - replace (s_enc s2') with (s_enc (r_s r)) by congruence. rewrite R11. reflexivity.
+    - transitivity (comp_of (r_s r)); [unfold comp_of; congruence|].
+      rewrite (rest_comp _ _ (fc_rest _ _ _ (fs_frame _ _ _ _ _ F))). reflexivity.
     - intros i Hi. unfold getop. replace (s_ops s2') with (s_ops s2) by congruence. apply U6.
       eapply getop_none_frame; [apply F|]. apply Hs1s. exact Hi.
   Qed.
@@ -192,7 +261,7 @@ Section Session2.
     let r := apply_session cfg s sp in
     (forall site, r_out r <> Panic site) /\ WFS (r_s r) /\ W9 cfg (r_s r) /\ s_st (r_s r) = Connected /\
     s_settings (r_s r) = s_settings s /\ s_cur (r_s r) = s_cur s /\ s_enc (r_s r) = s_enc s /\
-    (forall i, s_cur s = Some i -> getop (r_s r) i = None).
+    (forall i, s_cur s = Some i -> getop (r_s r) i = None) /\ comp_of (r_s r) = comp_of s.
   Proof.
     intros HW H9 Hst E1 E2 E3 E4 E5 Hcur. rewrite apply_session_unfold. cbv zeta.
     assert (Hmid : (forall site, r_out (sess_head s sp) <> Panic site) /\
@@ -202,7 +271,7 @@ Section Session2.
       - apply sess_mid_absent; assumption. }
     destruct Hmid as (N1 & M). rewrite (nopanic_is_panic _ N1).
     set (r1 := sess_head s sp) in *. set (s2 := fold_left unbind (s_uq (r_s r1)) (r_s r1)) in *. clearbody s2.
-    destruct M as [M1 M2 M3 M4 M5 M6 M7 M8 M9 M10 M11 M12].
+    destruct M as [M1 M2 M3 M4 M5 M6 M7 M8 M9 M10 M11 M13 M12].
     destruct (sess_tail_spec s2 (r_done r1) (r_out r1) M1 M3 M4 M5 M6 M7) as (T1 & T2 & T3 & T4).
     set (r := sess_tail s2 (r_done r1) (r_out r1)) in *. clearbody r.
     unfold sess_keep in T3. tuple_eqs T3.
@@ -210,5 +279,6 @@ Section Session2.
     - unfold W9, ss_ok in *. rewrite T4. replace (s_st (r_s r)) with (s_st s2) by congruence.
       replace (s_ss_count (r_s r)) with (s_ss_count s2) by congruence. exact M2.
     - intros i Hi. unfold getop. rewrite T4. apply M12. apply Hcur. exact Hi.
+    - rewrite <- M13. unfold comp_of. congruence.
   Qed.
 End Session2.
